@@ -261,6 +261,12 @@ package common
 //@   modifies nothing
 //@   ensures [decoded] err == nil ==> result0 != nil && fresh(result0) && DecodedTx(&result0.SignedTransaction)
 //@   ensures [size] err == nil ==> len(val) <= config.TransactionMaximumSize
+//@   -- added for C23 (storage cache), ASSUMED: the decoded object remembers the byte string it was decoded from. TxSrc(ver) is a function of the
+//@   -- pointer (a fact about the allocation, like SnapSrc); TxHashOfVal(v) is the payload hash of the transaction encoded by the value with id v.
+//@   assumes [source] err == nil ==> TxSrc(result0) == kvval(val)
+
+//@ uninterp TxSrc(ver *VersionedTransaction) mathint
+//@ uninterp TxHashOfVal(v mathint) crypto.Hash
 
 //@ -- (c) the hashed bytes are EncodeTransaction of a FRESH SignedTransaction that copies ver.Transaction and has no authorisation data.
 //@ func (ver *VersionedTransaction) payloadMarshal
@@ -282,6 +288,9 @@ package common
 //@   -- C31's size abstraction: MLenOf(ver) names len(ver.Marshal()); with config.Debug == true (a constant of this tree) Marshal
 //@   -- re-decodes its output and panics when it exceeds config.TransactionMaximumSize. Assumed, not verified against the body.
 //@   assumes len(result) == MLenOf(ver) && 0 < len(result) && len(result) <= config.TransactionMaximumSize && fresh(result)
+//@   -- added for C23, ASSUMED: the encoding determines the payload hash, and a cached hash (ver.hash, set by PayloadHash) is the payload hash of
+//@   -- the current payload -- the cache is never invalidated, so this presumes the payload was not mutated after the first PayloadHash() (C06 note).
+//@   assumes [payload-hash] ver.hash.HasValue() ==> TxHashOfVal(kvval(result)) == ver.hash
 
 //@ func (ver *VersionedTransaction) PayloadMarshal
 //@   property C06
@@ -301,4 +310,6 @@ package common
 //@   maypanic
 //@   modifies ver.pmbytes, ver.hash
 //@   ensures [cached] result == ver.hash && (old(ver.hash.HasValue()) ==> result == old(ver.hash) && ver.pmbytes == old(ver.pmbytes))
+//@   -- added for C23, ASSUMED: a Blake3 digest is never the all-zero string (the code itself uses the zero hash as "not cached yet")
+//@   assumes [nonzero] result.HasValue()
 //@   ensures [auth-untouched] ver.SignaturesMap == old(ver.SignaturesMap) && ver.AggregatedSignature == old(ver.AggregatedSignature)
